@@ -2438,6 +2438,10 @@ def _broadcast(a: Any, b: Any):
                 a.dim(), b.dim()
             )
         )
+    if any(sh1 != sh2 and sh1 != 1 and sh2 != 1 for sh1, sh2 in zip(a.shape, b.shape)):
+        raise ValueError(
+            "Cannot broadcast shapes {} and {}".format(list(a.shape), list(b.shape))
+        )
     result1 = a.repeat(
         *[int(round(max(sh2 / sh1, 1))) for sh1, sh2 in zip(a.shape, b.shape)]
     )
